@@ -65,11 +65,11 @@ Lemma eu_c A B R : shaped L A -> shaped L B -> eval_eu_saturated G A B = Ok R ->
   shaped L R /\ forall v, mem L R v = true <-> EUs G (Mem A) (Mem B) v.
 Proof. intros; eapply eu_correct; eauto. Qed.
 
-(** ---- predicates that agree inside the unit give operators that agree inside the unit ---- *)
+(** ---- monotonicity: predicates related inside the unit give operators related inside the unit ---- *)
 Section Congruence.
 Variables P P' Q Q' : val -> Prop.
-Hypothesis HP : forall w, inUnit w -> (P w <-> P' w).
-Hypothesis HQ : forall w, inUnit w -> (Q w <-> Q' w).
+Hypothesis HP : forall w, inUnit w -> P w -> P' w.
+Hypothesis HQ : forall w, inUnit w -> Q w -> Q' w.
 
 Lemma EXs_congr v : inUnit v -> EXs G P v -> EXs G P' v.
 Proof.
